@@ -48,10 +48,10 @@ Explains(ev) ==
          IF KernMustErr(Col(ev.a), ev.as, Col(ev.b), ev.bs) THEN ev.err
          ELSE ~ev.err /\ ev.out = KernRows(ev.f, Col(ev.a), ev.as, Col(ev.b), ev.bs)
 
-What(ev) ==
-  CASE ev.op \in {"cmp", "sort", "sortv", "rank"} -> <<ev.op, ev.ty, ev.desc, ev.nf>>
-    [] ev.op = "kern" -> <<ev.op, ev.f, ev.ty>>
-    [] OTHER -> <<ev.op, ev.ty>>
+(* kept short: TLC wraps a printed tuple that does not fit in 80 columns, and   *)
+(* the REJECT / KNOWN lines are meant to be one line (the replay file holds    *)
+(* the whole event and its episode)                                            *)
+What(ev) == IF ev.op = "kern" THEN ev.f ELSE ev.op
 
 (***************************************************************************)
 (* Known findings (known_findings.txt), identified by call shape so that    *)
@@ -64,6 +64,13 @@ KF(ev) ==
          -> "C10-sort-zero-width-values"
     [] ev.op = "lexsortv" /\ ev.zw /\ ~ev.err /\ (\E c \in 1..Len(ev.outs) : ev.outs[c] = <<>>)
          -> "C10-sort-zero-width-values"
+    (* list views: array equality ignores the validity of the child values (it panics *)
+    (* or says "equal" too often); it never denies the equality of equal rows          *)
+    [] ev.op = "arreq" /\ ev.fam = "listview" /\
+       (ev.err \/ (Len(ev.out) = Len(ev.pairs) /\
+                   \A k \in 1..Len(ev.pairs) :
+                      (CmpV(Col(ev.a)[ev.pairs[k][1] + 1], Col(ev.b)[ev.pairs[k][2] + 1], DefaultOpt) = 0) => ev.out[k]))
+         -> "C10-listview-array-equality"
     [] OTHER -> ""
 
 Init == l = 1 /\ cols = <<>>
